@@ -12,6 +12,7 @@ package main
 // the original sequence.
 
 import (
+	"bufio"
 	"bytes"
 	"encoding/base64"
 	"encoding/csv"
@@ -130,37 +131,76 @@ func c08Detect(run *ev.Run, cc codecCounts, encName string, recs []vegeta.Result
 			c08Witness{Kind: "detect", Encoding: encName, Chunk: ck, Class: class, Message: m, At: at, Diffs: diffs, Records: codecDumpAll(recs)})
 	}
 	cr := ck.reader(encd.Data)
-	dec, pan := codecSafeDecoderFor(cr)
-	cc["decoderfor_calls/"+encName]++
-	if pan != nil {
-		viol("panic", fmt.Sprintf("DecoderFor panicked: %v", pan), 0, nil)
-		return
-	}
-	if dec == nil {
-		viol("nil-decoder", "no decoder although the stream is a valid "+encName+" stream", 0, nil)
-		return
-	}
-	got, last, pan := codecDecodeAll(dec, len(recs)+2)
-	cc["records_decoded_after_detection/"+encName] += int64(len(got))
-	cc["reader_read_calls"] += int64(cr.Reads)
-	if pan != nil {
-		viol("panic", fmt.Sprintf("Decode panicked after %d records: %v", len(got), pan), len(got), nil)
-		return
-	}
-	class, at, diffs := codecCompareSeq(recs, got)
-	switch class {
-	case "":
-		if last != io.EOF {
-			viol("not-eof", fmt.Sprintf("after the %d records Decode returned %v instead of io.EOF", len(recs), last), len(recs), nil)
+	judge := func(rd io.Reader, tag string) {
+		sfx := ""
+		if tag != "" {
+			sfx = "/" + tag
+		}
+		dec, pan := codecSafeDecoderFor(rd)
+		cc["decoderfor_calls/"+encName]++
+		if pan != nil {
+			viol("panic"+sfx, fmt.Sprintf("DecoderFor panicked: %v", pan), 0, nil)
 			return
 		}
-		cc["streams_detected_and_equal/"+encName]++
-	case "short":
-		viol("lost-tail", fmt.Sprintf("only %d of %d records, then %v", len(got), len(recs), last), at, nil)
-	case "long":
-		viol("extra-record", fmt.Sprintf("more than the %d encoded records were returned", len(recs)), at, nil)
-	default:
-		viol(class+"/"+codecDiffNames(diffs), fmt.Sprintf("record %d returned by the detected decoder differs from the encoded one (%s) in %s", at, class, codecDiffNames(diffs)), at, diffs)
+		if dec == nil {
+			viol("nil-decoder"+sfx, "no decoder although the stream is a valid "+encName+" stream", 0, nil)
+			return
+		}
+		got, last, pan := codecDecodeAll(dec, len(recs)+2)
+		cc["records_decoded_after_detection/"+encName] += int64(len(got))
+		if pan != nil {
+			viol("panic"+sfx, fmt.Sprintf("Decode panicked after %d records: %v", len(got), pan), len(got), nil)
+			return
+		}
+		class, at, diffs := codecCompareSeq(recs, got)
+		switch class {
+		case "":
+			if last != io.EOF {
+				viol("not-eof"+sfx, fmt.Sprintf("after the %d records Decode returned %v instead of io.EOF", len(recs), last), len(recs), nil)
+				return
+			}
+			cc["streams_detected_and_equal/"+encName]++
+			if tag != "" {
+				cc["streams_detected_and_equal_from_a_"+tag+"_reader"]++
+			}
+		case "short":
+			viol("lost-tail"+sfx, fmt.Sprintf("only %d of %d records, then %v", len(got), len(recs), last), at, nil)
+		case "long":
+			viol("extra-record"+sfx, fmt.Sprintf("more than the %d encoded records were returned", len(recs)), at, nil)
+		default:
+			viol(class+"/"+codecDiffNames(diffs)+sfx, fmt.Sprintf("record %d returned by the detected decoder differs from the encoded one (%s) in %s", at, class, codecDiffNames(diffs)), at, diffs)
+		}
+	}
+	judge(cr, "")
+	cc["reader_read_calls"] += int64(cr.Reads)
+	// The same stream from readers that can do more than Read (Seek, ReadAt, WriteTo, ReadByte):
+	// the stream begins where the reader stands, which need not be offset 0 of the underlying file.
+	switch uint64(ck.Seed) % 6 {
+	case 0:
+		judge(bytes.NewReader(encd.Data), "seekable")
+	case 1:
+		pre := make([]byte, 1+int(uint64(ck.Seed)>>8%5000))
+		for i := range pre {
+			pre[i] = byte(uint64(ck.Seed) >> (uint(i) % 40))
+		}
+		rd := bytes.NewReader(append(pre, encd.Data...))
+		if _, err := rd.Seek(int64(len(pre)), io.SeekStart); err == nil {
+			judge(rd, "seekable-at-offset")
+		}
+	case 2:
+		if f, err := os.CreateTemp("", "verif-c08-*"); err == nil {
+			pre := []byte("# preamble that the caller has consumed already\n")
+			_, e1 := f.Write(pre)
+			_, e2 := f.Write(encd.Data)
+			_, e3 := f.Seek(int64(len(pre)), io.SeekStart)
+			if e1 == nil && e2 == nil && e3 == nil {
+				judge(f, "file-at-offset")
+			}
+			f.Close()
+			os.Remove(f.Name())
+		}
+	case 3:
+		judge(bufio.NewReaderSize(bytes.NewReader(encd.Data), 16), "bufio")
 	}
 	if len(recs) >= 2 && len(codecDiff(&recs[0], &recs[1])) > 0 {
 		run.Distinct(fmt.Sprintf("detect/%s/%d/%v/%v/%x", encName, ck.Mode, ck.Zero, ck.Early, codecKey(&recs[0])+codecKey(&recs[len(recs)-1])))
